@@ -241,7 +241,7 @@ def dparseOp : List String → String
 /-- the field name of each text header (`text_header!` in src/message/header/textual.rs) -/
 def textHeaderName (sel : String) : Option String :=
   match sel with
-  | "-" | "subject" => some "Subject"
+  | "-" | "subject" | "subject-builder" => some "Subject"
   | "comments" => some "Comments"
   | "keywords" => some "Keywords"
   | "in-reply-to" => some "In-Reply-To"
@@ -302,7 +302,7 @@ def parseOps (s : String) : Option (List Op) :=
   if s == "-" then some [] else
   -- `D` (date_now) and `U:<text>` (user_agent) do not touch mailboxes or the envelope: the header section they lead
   -- to is judged by the counts and the line rules below
-  ((s.splitOn ",").filter fun op => op != "D" && !op.startsWith "U:").mapM fun op =>
+  ((s.splitOn ",").filter fun op => op != "D" && !op.startsWith "U:" && !op.startsWith "Z:").mapM fun op =>
     match op.splitOn ":" with
     | ["K"] => some .keepBcc
     | ["E", f, to] => do
@@ -347,7 +347,11 @@ def buildOp : List String → String
         | .error er => showOutcome (.err er)
       if implS == "PANIC" then propfail "panic" else
       if implS != specS then propfail s!"envelope-or-outcome-differs-from-the-calls:expected={specS}" else
-      if res.startsWith "ok" && !((facts.splitOn ",").drop 1 == ["date=1", "from=1", "mime=0"]) then propfail s!"header-counts:{facts}" else
+      -- how the message was finished (`Z:<k>`): a raw body has no MIME-Version, a MIME body has exactly one; the header
+      -- section always ends with an empty line
+      let fin := (((ops.splitOn ",").filter (·.startsWith "Z:")).getLast?.map fun z => (z.drop 2).toString).getD "x"
+      let mime := if fin == "s" || fin == "m" || fin == "h" then "mime=1" else "mime=0"
+      if res.startsWith "ok" && !((facts.splitOn ",").drop 1 == ["date=1", "from=1", mime, "term=1"]) then propfail s!"header-counts:{facts}" else
       let hd := (ofHex head).getD []
       if res.startsWith "ok" && !HeaderReader.linesOk true 998 hd then propfail "header-line-malformed" else
       let m := showOutcome (run permissiveEnv prog)
